@@ -124,7 +124,9 @@ class Gen:
     def new_fin(self):
         r = self.rng
         name = next(n for n in FIN_NAMES if n not in self.fin)
-        kind = r.choice(["bern", "bern", "cat", "du", "toggle", "choice", "choice-frac", "counter", "copy", "prod"])
+        kind = r.choice(["bern", "bern", "cat", "du", "toggle", "choice", "choice-frac", "counter", "copy", "prod", "draw-then-flip"])
+        if self.profile == "guarded" and r.random() < 0.25:
+            kind = "draw-then-flip"
         if kind in ("copy", "prod") and not self.fin:
             kind = "bern"
         upd = None
@@ -167,6 +169,12 @@ class Gen:
             upd = ("counter", hi)
             self.typedefs.append((name, "FiniteRange", [num(0), num(hi)]))
             self.feat("fin-bounded-counter")
+        elif kind == "draw-then-flip":
+            # drawn from a discrete law and reassigned from its own new value in the same iteration
+            a_ = r.choice([1, 2, 3])
+            vals = {F(a_), F(a_ - 1)}
+            upd = ("drawflip", a_)
+            self.feat("fin-draw-then-reassign")
         elif kind == "copy":
             src = r.choice(list(self.fin))
             vals = set(self.fin[src])
@@ -416,7 +424,7 @@ class Gen:
             body.insert(0, ("assign", "c", ("draw", "Bernoulli", [self.prob_expr(False)])))
             cond = ("and", cond, ("atom", var("c"), "==", num(r.choice([0, 1]))))
             self.feat("abstract-with-finite-conjunct")
-        dependent = r.random() < 0.2
+        dependent = r.random() < 0.35
         if dependent:
             # an indicator of the same draw assigned earlier in the iteration: the abstraction is not independent any more
             self.fin["b"] = {F(0), F(1)}
@@ -425,6 +433,26 @@ class Gen:
             body.append(("if", [(("atom", var("u"), ">", num(t0)), [("assign", "b", ("poly", num(1)))])], [("assign", "b", ("poly", num(0)))]))
             cond = ("and", ("atom", var("b"), "==", num(1)), cond)
             self.feat("abstract-dependent-indicator")
+        elif r.random() < 0.35:
+            # the tested value is computed from the draw and a finite variable (w = u + d); when d is also tested in the same
+            # guard the abstracted event is not independent of the finite part (Polar must refuse), otherwise it is
+            same = r.random() < 0.5
+            dname = "c" if (same and "c" in self.fin) else "d"
+            if dname == "d" or "c" not in self.fin:
+                dname = "d"
+                self.fin["d"] = {F(0), F(1)}
+                init.append(("assign", "d", ("poly", num(0))))
+                body.insert(0, ("assign", "d", ("draw", "Bernoulli", [num(r.choice([F(1, 2), F(1, 3), F(3, 4)]))])))
+            init.append(("assign", "w", ("poly", num(0))))
+            body.append(("assign", "w", ("poly", add(var("u"), scaled(b - a, var(dname)) if r.random() < 0.5 else var(dname)))))
+            tw = a + (b - a) * r.choice([F(1, 2), F(1), F(5, 4), F(3, 2)])
+            wcond = ("atom", var("w"), r.choice([">", "<"]), num(tw))
+            if same:
+                cond = ("and", ("atom", var(dname), "==", num(r.choice([0, 1]))), wcond)
+                self.feat("abstract-derived-value-dependent-on-finite-conjunct")
+            else:
+                cond = ("and", cond, wcond) if r.random() < 0.3 else (("and", ("atom", var("c"), "==", num(1)), wcond) if "c" in self.fin else wcond)
+                self.feat("abstract-derived-value")
         upd1 = ("assign", "x", ("choice", [(add(var("x"), num(1)), num(F(1, 2))), (add(var("x"), num(r.choice([2, 3, -1]))), num(F(1, 2)))])) \
             if r.random() < 0.5 else ("assign", "x", ("poly", add(scaled(r.choice([F(1), F(1, 2), F(2)]), var("x")), num(1))))
         branches = [(cond, [upd1])]
@@ -549,6 +577,10 @@ class Gen:
             if upd[0] == "counter":
                 hi = upd[1]
                 fin_stmts.append(("if", [(("atom", var(name), "<", num(hi)), [("assign", name, ("poly", add(var(name), num(1))))])], None))
+            elif upd[0] == "drawflip":
+                fin_stmts.append(("assign", name, ("draw", "Bernoulli", [self.prob_expr()])))
+                fin_stmts.append(("assign", name, ("poly", binop("-", num(upd[1]), var(name)))))
+                self.feat("multi-assign-same-var")
             elif upd[0] == "prodbern":
                 tmpn = name
                 fin_stmts.append(("assign", tmpn, ("draw", "Bernoulli", [self.prob_expr()])))
@@ -559,7 +591,19 @@ class Gen:
 
         body = []
         # order: some finite updates first, draws, data under conditions, remaining finite updates
-        r.shuffle(fin_stmts)
+        # keep 'draw; update of the drawn variable' pairs adjacent and in order while shuffling
+        groups = []
+        i_ = 0
+        while i_ < len(fin_stmts):
+            st = fin_stmts[i_]
+            if i_ + 1 < len(fin_stmts) and st[0] == "assign" and fin_stmts[i_ + 1][0] == "assign" and fin_stmts[i_ + 1][1] == st[1]:
+                groups.append([st, fin_stmts[i_ + 1]])
+                i_ += 2
+            else:
+                groups.append([st])
+                i_ += 1
+        r.shuffle(groups)
+        fin_stmts = [st for g_ in groups for st in g_]
         cut = r.randint(0, len(fin_stmts))
         body += fin_stmts[:cut]
         body += draw_stmts
